@@ -443,7 +443,20 @@ func c17Diff(p *chk.Prog, r *chk.Report) {
 		}
 		x.Check("sendUpdates:pending-folded-before-full-send", f.Pos(), okFold, "", "a set requested while disconnected is not made the advertised set before the full table is sent")
 		// ibgp flag
-		x.Check("sendUpdates:ibgp-flag", f.Pos(), len(g.Find(f.IsAssignPat("I", "RECV.MyASN == RECV.PeerASN"))) == 1, "", "the iBGP flag is not MyASN == PeerASN")
+		// at every sendUpdate the iBGP argument is MyASN == PeerASN (spelt in place or held in a local)
+		okFlag, okFB, nSend := true, true, 0
+		for _, c := range g.FindPat("sendUpdate(RECV.conn, RECV.MyASN, IBGP, FB, RECV.nextHop, A)") {
+			nSend++
+			arg := f.Resolve(c.Node.(*ast.CallExpr).Args[2])
+			if f.MatchWith("RECV.MyASN == RECV.PeerASN", arg, chk.H("RECV", isRecv(f))) == nil && f.MatchWith("RECV.PeerASN == RECV.MyASN", arg, chk.H("RECV", isRecv(f))) == nil {
+				okFlag = false
+			}
+			if f.MatchWith("RECV.peerFBASNSupport", f.Resolve(c.Node.(*ast.CallExpr).Args[3]), chk.H("RECV", isRecv(f))) == nil {
+				okFB = false
+			}
+		}
+		x.Check("sendUpdates:ibgp-flag", f.Pos(), okFlag && nSend >= 1, "", "the iBGP flag is not MyASN == PeerASN")
+		x.Check("sendUpdates:as4-flag", f.Pos(), okFB && nSend >= 1, "", "the AS_PATH encoding is not chosen by what the peer negotiated (s.peerFBASNSupport)")
 	} else {
 		x.Fail("sendUpdates:full-table-loop", f.Pos(), "no top-level loop over s.advertised")
 	}
